@@ -7,6 +7,7 @@
 //!     s,path,data  plant a file in the cache dir     x,path  delete a file / symlink of the cache dir
 //!     m,path  plant a DIRECTORY (mkdir -p)     k,path  plant a DANGLING SYMLINK     t,path,n  cut a regular file to its first n bytes
 //!     y,path,data  plant a SYMLINK to a regular file (outside the cache dir) holding data
+//!     q,t,list  `Cache::remove_not_in_list(t, list)` directly (list = `-` | `id:size+id:size…`): the pack clean-up of `check`
 //!     f  cache-dir layout      b  backend contents
 //! Direct oracles: a shadow `MemBackend` receives every operation uncached — the real store must always equal
 //! the shadow's; results through the cached handle must equal the shadow's whenever the file's type has been
@@ -115,7 +116,7 @@ fn hist(steps: &str) -> String {
     let be = MemBackend::new();
     let shadow = MemBackend::named("shadow");
     let cache = rustic_core::verif::cache::cache_at(croot.clone());
-    let cached = rustic_core::verif::cache::cached_backend(Arc::new(be.clone()), cache);
+    let cached = rustic_core::verif::cache::cached_backend(Arc::new(be.clone()), cache.clone());
     // dirty[t]: the cache dir or the repository changed behind the cached handle since its last listing of t
     let mut dirty = [false; 5];
     let mut n_stash = 0usize;
@@ -145,6 +146,52 @@ fn hist(steps: &str) -> String {
                 }
                 _ = std::fs::remove_file(croot.join(path));
                 "ok".into()
+            }
+            ["q", t, list] => {
+                // `Cache::remove_not_in_list(t, list)` called directly — the pack clean-up of `check` (there: t = pack, list = the tree
+                // packs of the index with the sizes the index records), with and without `trust_cache`
+                let Some(t) = tpe_of(t) else { return "bad-op".into() };
+                let mut l: Vec<(Id, u32)> = Vec::new();
+                if *list != "-" {
+                    for e in list.split('+') {
+                        let Some((id, n)) = e.split_once(':') else { return "bad-op".into() };
+                        let (Some(id), Ok(n)) = (id_of(id), n.parse::<u32>()) else { return "bad-op".into() };
+                        l.push((id, n));
+                    }
+                }
+                let res = cache.remove_not_in_list(t, &l);
+                // what survives has the size the list gives for that id (theorem `no_stale_pack_after_check`)
+                let want: BTreeMap<Id, u32> = l.iter().copied().collect();
+                for sub in std::fs::read_dir(croot.join(t.dirname())).into_iter().flatten().flatten() {
+                    if !sub.path().is_dir() {
+                        continue;
+                    }
+                    for e in std::fs::read_dir(sub.path()).into_iter().flatten().flatten() {
+                        let name = e.file_name().to_string_lossy().to_string();
+                        let Some(id) = id_of(&name) else { continue };
+                        if !e.path().is_file() || sub.file_name().to_string_lossy() != name[..2] {
+                            continue;
+                        }
+                        let sz = std::fs::metadata(e.path()).map(|m| m.len()).unwrap_or(0);
+                        if want.get(&id).map(|n| u64::from(*n)) != Some(sz) {
+                            fail = fail.or(Some("oracle-fail:entry-not-in-list-after-cleanup".into()));
+                        }
+                    }
+                }
+                // the list is the repository's listing of the files of that type that are ever cached (packs: the tree packs): the cache
+                // is clean for that type now, every read through the cached handle must equal the uncached one
+                let mut truth: Vec<(Id, u32)> = be
+                    .store()
+                    .iter()
+                    .filter(|((ft, id), _)| *ft == ft_idx(t) && (is_cacheable(t) || cbf(ft_idx(t), id.to_hex().as_str()) == 1))
+                    .map(|((_, id), b)| (*id, b.len() as u32))
+                    .collect();
+                truth.sort();
+                l.sort();
+                if res.is_ok() && l == truth {
+                    dirty[ft_idx(t) as usize] = false;
+                }
+                if res.is_ok() { "ok".into() } else { "err".into() }
             }
             ["m", path] => {
                 // a DIRECTORY planted in the cache dir (`mkdir -p`); never makes the cache "dirty": whatever lies below or at
@@ -676,6 +723,14 @@ fn unused_size(used: &[(u8, String, usize)], t: u8, id: &str, mut n: usize) -> u
     n
 }
 
+/// `id:size+…` of the live tree packs (`cbf` = 1); `skew`: one entry with another size (an index that disagrees with the repository)
+fn pack_list(live: &[(u8, String, usize)], skew: Option<usize>) -> String {
+    let tree: Vec<&(u8, String, usize)> = live.iter().filter(|(t, id, _)| *t == 4 && cbf(*t, id) == 1).collect();
+    let bad = skew.filter(|_| !tree.is_empty()).map(|k| k % tree.len());
+    let v: Vec<String> = tree.iter().enumerate().map(|(i, (_, id, n))| format!("{id}:{}", if bad == Some(i) { n + 1 } else { *n })).collect();
+    if v.is_empty() { "-".into() } else { v.join("+") }
+}
+
 /// The `cacheable` flag callers pass for a file: a function of the file (a pack is a tree pack — cached — or a data pack — never cached),
 /// here derived from the id: packs whose id starts with `0`..`4` are data packs.
 fn cbf(t: u8, id: &str) -> u8 {
@@ -735,6 +790,11 @@ pub fn generate(thorough: bool, rng: &mut Rng, ops: &mut Vec<String>, stats: &mu
             if rng.chance(3, 4) {
                 stats.hit("alt.c-list");
                 steps.push(format!("l,c,{ut}"));
+            }
+            if ut == 4 && rng.chance(1, 2) {
+                // what `check` does (with and without trust_cache): the pack cache is cleaned against the tree packs of the index
+                stats.hit("alt.c-pack-cleanup");
+                steps.push(format!("q,4,{}", pack_list(&live, None)));
             }
             let (rt, rid, rlen) = if rng.chance(2, 3) {
                 (ut, uid, ulen)
@@ -835,7 +895,24 @@ pub fn generate(thorough: bool, rng: &mut Rng, ops: &mut Vec<String>, stats: &mu
                     (t, hex::encode(rng.bytes(32)), 10)
                 }
             };
-            match rng.below(22) {
+            match rng.below(23) {
+                22 => {
+                    // the pack clean-up of `check` (1/4: against a list in which one pack has another size), then ranged reads of packs
+                    let skew = if rng.chance(1, 4) { Some(rng.below(7) as usize) } else { None };
+                    stats.hit(if skew.is_some() { "op.pack-cleanup.skewed-list" } else { "op.pack-cleanup" });
+                    steps.push(format!("q,4,{}", pack_list(&written, skew)));
+                    let packs: Vec<(u8, String, usize)> = written.iter().filter(|(a, _, l)| *a == 4 && *l > 0).cloned().collect();
+                    for _ in 0..rng.below(3) {
+                        if packs.is_empty() {
+                            break;
+                        }
+                        let (_, id, len) = rng.pick(&packs).clone();
+                        let off = rng.below(len as u64) as usize;
+                        let l = 1 + rng.below((len - off) as u64) as usize;
+                        stats.hit("op.read-partial.after-pack-cleanup");
+                        steps.push(format!("p,c,4,{id},{},{off},{l}", cbf(4, &id)));
+                    }
+                }
                 0..=4 => {
                     let mut len = *rng.pick(&[0usize, 1, 5, 33, 100, 100, 700, 5000]);
                     let id = if !written.is_empty() && rng.chance(1, 8) {
